@@ -25,7 +25,7 @@ def check(tier, seed):
     rep = core.Report('C18', tier, seed)
     rng = random.Random(seed)
     b = core.prepare('C18', 'Fips204/Props/C18.lean')
-    if b.cargo_errs or not b.model_ok:
+    if b.cargo_errs:
         return core.finish(rep, b, 'proof', {}, ['build failed'])
     thorough = tier == 'thorough'
     cases = []
